@@ -26,25 +26,31 @@ func c12Setup() {
 		}
 		// user-registered transformations made by one factory (closures of one function literal), as a plugin
 		// author would write them: same code, different behaviour
-		swapper := func(from, to byte) func(string) (string, bool, error) {
-			return func(s string) (string, bool, error) {
-				if strings.IndexByte(s, from) < 0 {
-					return s, false, nil
-				}
-				return strings.ReplaceAll(s, string(from), string(to)), true, nil
-			}
-		}
-		transformations.Register("verifswapa", swapper('a', 'x'))
-		transformations.Register("verifswapb", swapper('b', 'x'))
-		transformations.Register("verifswapx", swapper('x', 'a'))
+		transformations.Register("verifswapa", c12Swapper('a', 'x'))
+		transformations.Register("verifswapb", c12Swapper('b', 'x'))
+		transformations.Register("verifswapx", c12Swapper('x', 'a'))
 		c12Custom = []string{"verifswapa", "verifswapb", "verifswapx"}
 	})
+}
+
+// c12Swapper is the factory: every transformation it returns is a closure of the one function literal below
+// (kept out of line, so that the compiler does not clone the literal per call site).
+//
+//go:noinline
+func c12Swapper(from, to byte) func(string) (string, bool, error) {
+	return func(s string) (string, bool, error) {
+		if strings.IndexByte(s, from) < 0 {
+			return s, false, nil
+		}
+		return strings.ReplaceAll(s, string(from), string(to)), true, nil
+	}
 }
 
 type C12Case struct {
 	RS         RuleSet `json:"ruleset"`
 	Req        Req     `json:"request"`
 	MatchedVar bool    `json:"matched_var_scenario,omitempty"`
+	Siblings   bool    `json:"plugin_siblings,omitempty"`
 }
 
 var c12Targets = [][]Target{
@@ -133,6 +139,25 @@ func genC12(t *rapid.T) *C12Case {
 			r.Acts = append(r.Acts, "setvar:tx.v=%{tx.v}x", "setenv:VERIF_C12=%{tx.v}")
 		}
 		c.RS.Items = append(c.RS.Items, Item{Rule: r})
+	}
+	if rapid.IntRange(0, 3).Draw(t, "siblings") == 0 {
+		// two rules whose lists differ only in the last step, both steps being transformations registered by a plugin
+		// (made by one factory): same targets, evaluated one after the other on the same values
+		pre := rapid.SampledFrom(prefixes).Draw(t, "sibprefix")
+		var clean []string
+		for _, x := range pre {
+			if !strings.EqualFold(x, "none") {
+				clean = append(clean, x)
+			}
+		}
+		tg := rapid.SampledFrom([][]Target{{{Var: "ARGS_GET"}}, {{Var: "ARGS"}}, {{Var: "REQUEST_HEADERS", Key: "h"}}}).Draw(t, "sibtargets")
+		for k := 0; k < 2; k++ {
+			id++
+			c.RS.Items = append(c.RS.Items, Item{Rule: &Rule{ID: id, Phase: phase, Disr: "pass", Op: "rx", Arg: rapid.SampledFrom([]string{"x", "a", "b", "^x"}).Draw(t, "sibrx"),
+				Targets: append([]Target(nil), tg...), Trans: append(append([]string(nil), clean...), c12Custom[(k+rapid.IntRange(0, 2).Draw(t, "sibc"))%3]),
+				Acts: []string{fmt.Sprintf("setvar:tx.c%d=+1", id)}}})
+		}
+		c.Siblings = true
 	}
 	if rapid.IntRange(0, 2).Draw(t, "matchedvar") == 0 {
 		// MATCHED_VAR / MATCHED_VAR_NAME keep the last match: deterministic only after single-valued
@@ -292,6 +317,9 @@ func checkC12(c *C12Case) Result {
 			res.Labels = append(res.Labels, "multimatch-control")
 			break
 		}
+	}
+	if c.Siblings && !c.MatchedVar {
+		res.Labels = append(res.Labels, "plugin-sibling-transformations")
 	}
 	res.NonTrivial = shared || changingRead >= 2
 	return res
